@@ -1,6 +1,7 @@
 package h
 
 import (
+	"encoding/json"
 	"fmt"
 	"runtime"
 
@@ -41,9 +42,56 @@ func caseC13(c *Ctx) {
 	p.W["Reset"] = 1
 	p.Late = lateKeys(c.R, 5)
 	// world A: the reference run generates the op list
+	var shared *keptDump
+	if c.Case%6 == 5 {
+		// both worlds start by loading one and the same EntityDump value (an argument like any other: the second
+		// world must get from it what the first one got). Pool lengths sit around allocator size classes and
+		// capacity increments; the dump comes straight from DumpEntities, through JSON, or with spare capacity.
+		cfg.CapInc = Pick(c.R, []int{128, 128, 64, 32, 100, 1, 8})
+		n := Pick(c.R, []int{111 + c.R.Intn(18), 223 + c.R.Intn(34), 5 + c.R.Intn(296), 60 + c.R.Intn(8), 28 + c.R.Intn(6)})
+		sw := ecs.NewWorld(ecs.NewConfig().WithCapacityIncrement(Pick(c.R, []int{128, 1, 16, 300})))
+		ents := []ecs.Entity{}
+		for i := 0; i < n; i++ {
+			ents = append(ents, sw.NewEntity())
+		}
+		Shuffle(c.R, ents)
+		kill := c.R.Intn(len(ents)/2 + 1)
+		for _, e := range ents[:kill] {
+			sw.RemoveEntity(e)
+		}
+		d := sw.DumpEntities()
+		switch c.R.Intn(3) {
+		case 1:
+			js, _ := json.Marshal(&d)
+			d = ecs.EntityDump{}
+			if err := json.Unmarshal(js, &d); err != nil {
+				panic(err)
+			}
+		case 2:
+			spare := make([]ecs.Entity, len(d.Entities), len(d.Entities)+1+c.R.Intn(300))
+			copy(spare, d.Entities)
+			d.Entities = spare
+		}
+		alive := append([]ecs.Entity{}, ents[kill:]...)
+		sortEnts(alive)
+		shared = &keptDump{d: d, alive: alive, ledger: map[ecs.Entity]bool{}}
+		for _, e := range ents {
+			shared.ledger[e] = true
+		}
+		p.MaxEnts = len(alive) + 40
+		p.Steps = 80
+		p.Scale(3, "NewEntity", "RemoveEntity", "NewBatch", "BatchRemoveEntities")
+		p.Zero("Reset")
+	}
 	a := NewSess(cfg, Opts{Events: true, Track: true})
 	g := NewGen(c.R, a, p)
-	if c.Case%4 == 2 {
+	if shared != nil {
+		k := *shared
+		a.kept = &k
+		a.Do(&Op{K: "ResetLoad"})
+		a.Cov.N["shared_dump_first_op"]++
+	}
+	if c.Case%4 == 2 && shared == nil {
 		// a relation node with more tables than one storage page, most of them retired again: wherever the
 		// library keeps tables in a hash map, its iteration order must not leak into results
 		if rels := g.relsUsed(); len(rels) > 0 {
@@ -100,6 +148,10 @@ func caseC13(c *Ctx) {
 		close(done)
 	}
 	b := NewSess(a.Cfg0, Opts{Events: true})
+	if shared != nil {
+		k := *shared
+		b.kept = &k
+	}
 	gcs := 0
 	for i, op := range a.Log {
 		if c.R.Chance(0.15) {
